@@ -30,6 +30,12 @@ Zeros(n)       == [op |-> "zeros", n |-> n]
 Free(n)        == [op |-> "free", n |-> n]                            \* n bytes the specification leaves open
 Pbkdf2Sha512(pw, salt, iters, keylen) == [op |-> "pbkdf2_sha512", a |-> <<pw, salt>>, n |-> iters, i |-> keylen]
 
+DSlice(x, i, j) == [op |-> "dslice", a |-> <<x, i, j>>]              \* bounds are int terms
+SIntLE(x)      == [op |-> "sint_le", a |-> <<x>>]                     \* signed little-endian integer
+IgeEP(k, iv, d) == [op |-> "ige_e", a |-> <<k, iv, d>>]               \* whole-string IGE (primitive; checked against
+IgeDP(k, iv, d) == [op |-> "ige_d", a |-> <<k, iv, d>>]               \*  the unfolded definition by the C05 run)
+Le(x, y) == <<"le", x, y>>                                            \* check: int x <= int y
+
 \* the 16-byte blocks of x (nblocks of them)
 BlocksOf(x, nblocks) == [i \in 1..nblocks |-> Slice(x, 16 * (i - 1), 16 * i)]
 Eq(x, y) == <<"eq", x, y>>
